@@ -140,6 +140,16 @@ func runCLI(ctx context.Context, r *report.Run) int {
 			if A, B := stateOf(c.A).Build(), stateOf(c.B).Build(); (A.HasColumn("t", "q") || B.HasColumn("t", "q")) && squ.OnlyAboutColumn(res[i].p, "q") {
 				key = apostropheKey
 			}
+			if c.Source == "hcl" && hasCheck(stateOf(c.B).Build(), "ck_bs") {
+				// the second diff re-plans the check (see backslashKey); nothing else may be wrong.
+				all := true
+				for _, p := range res[i].p {
+					all = all && (strings.Contains(p, "`schema diff` still reports changes") || strings.Contains(p, "second `schema apply`")) && strings.Contains(p, "CONSTRAINT `ck_bs` CHECK")
+				}
+				if all {
+					key = backslashKey
+				}
+			}
 			r.Violate(key, fmt.Sprintf("CLI A=%v B=%v source=%s: %s", c.A, c.B, c.Source, strings.Join(res[i].p, " | ")), map[string]any{"cli": c})
 		}
 	}
